@@ -154,6 +154,7 @@ def write_replay(prop, seed, idx, payload):
     os.makedirs(d, exist_ok=True)
     path = os.path.join(d, '%s-%s-%s.json' % (prop, seed, idx))
     payload = dict(payload, property=prop, seed=seed, case=idx)
+    payload.pop('_D', None)
     with open(path, 'w') as f:
         json.dump(payload, f, indent=1, default=str)
     return os.path.relpath(path, VERIF)
